@@ -620,8 +620,8 @@ Proof. unfold TB. destruct (lex_error_other ls s ln m) as [-> _]. exact (fun H =
 Lemma tb_read_error_cmd ls s ln c : TB ls -> TB (read_error_cmd ls s ln c).
 Proof. apply tb_add_log. Qed.
 (* read_timebase: max(48, v) then min(32767, .) *)
-Lemma tb_clamp t0 a b c :
-  TB (mkLex (if (if t0 <=? 48 then 48 else t0) >? 32767 then 32767 else (if t0 <=? 48 then 48 else t0)) a b c).
+Lemma tb_clamp t0 a b c d :
+  TB (mkLex (if (if t0 <=? 48 then 48 else t0) >? 32767 then 32767 else (if t0 <=? 48 then 48 else t0)) a b c d).
 Proof. unfold TB. cbn [lx_timebase]. destruct (t0 <=? 48) eqn:E1; destruct (_ >? 32767) eqn:E2; lia. Qed.
 
 Lemma read_args_tokens_tb ls s ln vs s' ln' ls' :
@@ -983,7 +983,7 @@ Proof. unfold tracks_for_writer. apply map_length. Qed.
 
 Theorem run_source_inv src s : run_source src = Ok s -> events_inv s /\ dims_inv s.
 Proof.
-  unfold run_source. intros E. apply bind_ok in E. destruct E as ([toks ls] & L & E).
+  unfold run_source, run_source_lang. intros E. apply bind_ok in E. destruct E as ([toks ls] & L & E).
   assert (T : TB ls). { apply (lex_tb _ _ _ _ _ L). unfold TB. cbn [lx_timebase]. lia. }
   split.
   - apply (exec_f_events_inv _ _ _ _ _ (song_after_lex_inv ls) E).
@@ -1045,7 +1045,7 @@ Theorem compile_pipeline src bytes log :
       deltas_ok (wire 0 (normalize_and_sort evs)) = true ->
       decode_track body = Some (wire 0 (normalize_and_sort evs) ++ [EOTmsg]).
 Proof.
-  unfold compile. intros E Hsz. apply bind_ok in E. destruct E as (s & R & E).
+  unfold compile, compile_lang. fold (run_source src). intros E Hsz. apply bind_ok in E. destruct E as (s & R & E).
   apply bind_ok in E. destruct E as (bs & G & E). injection E as -> _.
   destruct (run_source_inv src s R) as [Hev [Hn Htb]].
   unfold generate, generate_sorted in G. apply bind_ok in G. destruct G as (out & W & G).
